@@ -516,6 +516,9 @@ def d5(cx: Cx, ob: Ob) -> None:
                     continue
                 if op(a) == "cmp" and a[1] in ("is", "is not") and is_const(a[3], None) and op(a[2]) == "call" and callee_name(a[2]) == "get" and a[2][1][1] == ups:
                     continue
+                # m.get(k, SENTINEL) is (not) SENTINEL: membership, spelled with one access
+                if op(a) == "cmp" and a[1] in ("is", "is not") and op(a[2]) == "call" and callee_name(a[2]) == "get" and a[2][1][1] == ups and len(a[2][2]) == 2 and a[2][2][1] == a[3] and op(a[3]) in ("gconst", "new", "lv", "name"):
+                    continue
                 if any(x == ups or x == rec for x in subterms(a)):
                     ob.violate(
                         fn.qualname,
